@@ -418,6 +418,7 @@ func (e *Engine) fieldOf(st *State, base Val, name string) Val {
 		if b.Dyn != nil {
 			return e.fieldOf(st, b.V, name)
 		}
+		panic(&NilDeref{"field " + name + " of a nil interface in a contract expression"})
 	case *StructV:
 		stt := b.T.Underlying().(*types.Struct)
 		for i := 0; i < stt.NumFields(); i++ {
@@ -863,6 +864,14 @@ func (e *Engine) evalBinop(env *Env, x *Expr) Val {
 	switch op {
 	case "&&", "||", "==>", "<==>":
 		a := e.evalBool(env, x.Args[0])
+		if op == "==>" {
+			// A ==> B where B reads through a nil pointer on this path: the clause then demands that A is false here
+			b, nilRead := e.evalBoolNilGuard(env, x.Args[1])
+			if nilRead {
+				return mkBool(smtNot(a))
+			}
+			return mkBool(smtImp(a, b))
+		}
 		b := e.evalBool(env, x.Args[1])
 		switch op {
 		case "&&":
@@ -961,14 +970,14 @@ func (e *Engine) evalBinop(env *Env, x *Expr) Val {
 			return bin("bvmul")
 		case "/":
 			if sg {
-				return bin("bvsdiv")
+				return e.arithAbs(env.st, bin("bvsdiv"))
 			}
-			return bin("bvudiv")
+			return e.arithAbs(env.st, bin("bvudiv"))
 		case "%":
 			if sg {
-				return bin("bvsrem")
+				return e.arithAbs(env.st, bin("bvsrem"))
 			}
-			return bin("bvurem")
+			return e.arithAbs(env.st, bin("bvurem"))
 		case "<":
 			return cmp("bvult", "bvslt", sg)
 		case "<=":
